@@ -847,13 +847,13 @@ theorem binary_encoding_roundtrip (hI : IntRoundTrip) (hV : FValRoundTrip) (u : 
     injection hw with hw; subst hw
     cases adj with
     | none =>
-      simp [loadBinaryEncoding, loadDynamicValue, loadLinearAdjuster, writeParamInstanceRef, findFirst, findAll, mkEl, XmlNode.kids,
+      simp [loadBinaryEncoding, loadDynamicValue, loadLinearAdjuster, writeParamInstanceRef, adjKids, findFirst, findAll, mkEl, XmlNode.kids,
         Step.matches, step, XmlNode.isElem, XmlNode.tag, XmlNode.ns, XmlNode.attr!, XmlNode.attr?, XmlNode.attrs,
         isTrueWord_pyBool, bind, Except.bind, pure, Except.pure]
     | some a =>
       have h1 : readInt (toString a.slope) = .ok a.slope := hI a.slope
       have h2 : readInt (toString a.intercept) = .ok a.intercept := hI a.intercept
-      simp [loadBinaryEncoding, loadDynamicValue, loadLinearAdjuster, writeParamInstanceRef, writeLinAdj, showInt, findFirst, findAll, mkEl,
+      simp [loadBinaryEncoding, loadDynamicValue, loadLinearAdjuster, writeParamInstanceRef, adjKids, writeLinAdj, showInt, findFirst, findAll, mkEl,
         XmlNode.kids, Step.matches, step, XmlNode.isElem, XmlNode.tag, XmlNode.ns, XmlNode.attr!, XmlNode.attr?,
         XmlNode.attrs, isTrueWord_pyBool, bind, Except.bind, pure, Except.pure]
       have h1' : readInt a.slope.repr = .ok a.slope := h1
@@ -889,40 +889,10 @@ theorem binary_encoding_roundtrip (hI : IntRoundTrip) (hV : FValRoundTrip) (u : 
         simp [findFirst, findAll, mkEl, XmlNode.kids, Step.matches, step, XmlNode.isElem, XmlNode.tag, XmlNode.ns]
       simp only [loadBinaryEncoding, h1, h2, h3, he, hrt, bind, Except.bind, pure, Except.pure]
 
-/-! ### string encodings (single-byte codecs, no termination character) -/
+/-! ### string encodings: all ten codecs, three size forms, leading size or termination character -/
 
 /-- A termination character the constructor accepts: non-empty bytes that decode to exactly one character. -/
 def TermOK (enc : String) (t : Bytes) : Prop := t ≠ [] ∧ ∃ s, decodeText enc t = some s ∧ s.length = 1
-
-/-- String encodings in the regime the theorem covers: a single-byte codec (so no byte order is recorded), either a
-    termination character (one character of the codec) or a leading size that is absent or non-zero, and exactly one of the three size forms
-    (fixed, taken from a parameter, looked up from criteria). -/
-inductive StrWF : StrEnc → Prop
-  | fixed (enc : String) (henc : enc ∈ singleByteEncodings) (n : Int) (hn : n ≠ 0) (lead : Option Int)
-      (hl : lead ≠ some 0) :
-      StrWF { encoding := enc, fixedLength := some n, dynRef := none, lookup := none, useCal := true, adjuster := none,
-              termChar := none, leadingSize := lead, byteOrder := none }
-  | dynamic (enc : String) (henc : enc ∈ singleByteEncodings) (r : String) (hr : r ≠ "") (uc : Bool)
-      (adj : Option LinAdj) (lead : Option Int) (hl : lead ≠ some 0) :
-      StrWF { encoding := enc, fixedLength := none, dynRef := some r, lookup := none, useCal := uc, adjuster := adj,
-              termChar := none, leadingSize := lead, byteOrder := none }
-  | fixedTerm (enc : String) (henc : enc ∈ singleByteEncodings) (n : Int) (hn : n ≠ 0) (t : Bytes) (ht : TermOK enc t) :
-      StrWF { encoding := enc, fixedLength := some n, dynRef := none, lookup := none, useCal := true, adjuster := none,
-              termChar := some t, leadingSize := none, byteOrder := none }
-  | dynamicTerm (enc : String) (henc : enc ∈ singleByteEncodings) (r : String) (hr : r ≠ "") (uc : Bool)
-      (adj : Option LinAdj) (t : Bytes) (ht : TermOK enc t) :
-      StrWF { encoding := enc, fixedLength := none, dynRef := some r, lookup := none, useCal := uc, adjuster := adj,
-              termChar := some t, leadingSize := none, byteOrder := none }
-  | lookupTerm (enc : String) (henc : enc ∈ singleByteEncodings) (l : List DiscreteLookup) (hl : l ≠ [])
-      (hwf : ∀ d ∈ l, (∃ q, d.value = .flt (.fin q)) ∧ d.criteria ≠ [] ∧ ∀ c ∈ d.criteria, (lookupOp c.op).isSome = true)
-      (t : Bytes) (ht : TermOK enc t) :
-      StrWF { encoding := enc, fixedLength := none, dynRef := none, lookup := some l, useCal := true, adjuster := none,
-              termChar := some t, leadingSize := none, byteOrder := none }
-  | lookup (enc : String) (henc : enc ∈ singleByteEncodings) (l : List DiscreteLookup) (hl : l ≠ [])
-      (hwf : ∀ d ∈ l, (∃ q, d.value = .flt (.fin q)) ∧ d.criteria ≠ [] ∧ ∀ c ∈ d.criteria, (lookupOp c.op).isSome = true)
-      (lead : Option Int) (hlead : lead ≠ some 0) :
-      StrWF { encoding := enc, fixedLength := none, dynRef := none, lookup := some l, useCal := true, adjuster := none,
-              termChar := none, leadingSize := lead, byteOrder := none }
 
 theorem leading_cases (lead : Option Int) (hl : lead ≠ some 0) :
     (lead = none ∧ optTruthy lead = false) ∨ (∃ k, lead = some k ∧ k ≠ 0 ∧ optTruthy lead = true) := by
@@ -938,260 +908,419 @@ theorem singleByte_facts (enc : String) (h : enc ∈ singleByteEncodings) :
   simp only [singleByteEncodings, List.mem_cons, List.mem_nil_iff, or_false] at h
   rcases h with rfl | rfl | rfl | rfl <;> exact ⟨by decide, by decide⟩
 
-/-- A string encoding whose size is looked up from criteria. -/
-def lookupStr (enc : String) (l : List DiscreteLookup) (lead : Option Int) : StrEnc :=
-  { encoding := enc, fixedLength := none, dynRef := none, lookup := some l, useCal := true, adjuster := none,
-    termChar := none, leadingSize := lead, byteOrder := none }
+/-- A codec name together with the byte order the object records for it. -/
+inductive CodecOK : String → Option String → Prop
+  | single (enc : String) (h : enc ∈ singleByteEncodings) : CodecOK enc none
+  | bare16 (b : String) (hb : b = "leastSignificantByteFirst" ∨ b = "mostSignificantByteFirst") : CodecOK "UTF-16" (some b)
+  | bare32 (b : String) (hb : b = "leastSignificantByteFirst" ∨ b = "mostSignificantByteFirst") : CodecOK "UTF-32" (some b)
+  | le16 : CodecOK "UTF-16LE" (some "leastSignificantByteFirst")
+  | be16 : CodecOK "UTF-16BE" (some "mostSignificantByteFirst")
+  | le32 : CodecOK "UTF-32LE" (some "leastSignificantByteFirst")
+  | be32 : CodecOK "UTF-32BE" (some "mostSignificantByteFirst")
 
-/-- String encoding whose size is looked up from criteria (single-byte codec, no termination character). -/
-theorem string_lookup_roundtrip (hI : IntRoundTrip) (hV : FValRoundTrip) (u : Option String) (enc : String)
-    (henc : enc ∈ singleByteEncodings) (l : List DiscreteLookup) (hl : l ≠ [])
-    (hwf : ∀ d ∈ l, (∃ q, d.value = .flt (.fin q)) ∧ d.criteria ≠ [] ∧ ∀ c ∈ d.criteria, (lookupOp c.op).isSome = true)
-    (lead : Option Int) (hlead : lead ≠ some 0) (x : XmlNode)
-    (hw : writeEncoding u (.str (lookupStr enc l lead)) = .ok x) :
-    loadStringEncoding u x = .ok (.str (lookupStr enc l lead)) := by
-  unfold lookupStr at hw ⊢
-  obtain ⟨hsb, hsup⟩ := singleByte_facts enc henc
-  have hsupm : enc ∈ SUPPORTED_STRING_ENCODINGS := by simpa using hsup
-  have hne16 : (enc == "UTF-16" || enc == "UTF-32") = false := by
-    simp only [singleByteEncodings, List.mem_cons, List.mem_nil_iff, or_false] at henc
-    rcases henc with rfl | rfl | rfl | rfl <;> decide
-  have hl' : l.isEmpty = false := by cases l <;> simp_all
-  simp only [writeEncoding, optTruthy, strTruthy, listTruthy, hl', Bool.not_false, Bool.false_eq_true, if_true, if_false,
-    bind, Except.bind, pure, Except.pure, Option.getD, hne16, List.append_nil] at hw
-  cases hm : l.mapM (writeDiscreteLookup u) with
-  | error err => simp [hm] at hw
-  | ok xs =>
-    simp only [hm] at hw
-    have hel := mapM_all (writeDiscreteLookup u) (fun b => b.isElem = true) l
-      (fun d _ b hb => writeDiscreteLookup_isElem u d b hb) xs hm
-    have hrt := mapM_roundtrip (writeDiscreteLookup u) (loadDiscreteLookup u) l
-      (fun d hd b hb => by
-        obtain ⟨⟨q, hq⟩, hne, hop⟩ := hwf d hd
-        exact discrete_lookup_roundtrip hV u d q hq hne hop b hb) xs hm
-    have he : (mkEl u "DiscreteLookupList" [] xs).elems = xs := by
-      simp only [mkEl, XmlNode.elems, XmlNode.kids]
-      rw [List.filter_eq_self]; exact hel
-    rcases leading_cases lead hlead with ⟨rfl, hlt⟩ | ⟨k, rfl, hk, hlt⟩
-    · simp only [mkEl, if_false, Bool.false_eq_true, List.append_nil] at hw
-      injection hw with hw; subst hw
-      simp only [mkEl] at he
-      simp [loadStringEncoding, loadStrSpec, strSizeEl, loadStrTail, mkStrEnc, findFirst, findAll, XmlNode.kids,
-        Step.matches, step, XmlNode.isElem, XmlNode.tag, XmlNode.ns, XmlNode.attr?, XmlNode.attrs, XmlNode.text,
-        optTruthy, strTruthy, listTruthy, hl', hsb, hsup, henc, hsupm, he, hrt, bind, Except.bind, pure, Except.pure]
-    · have hk' : (k != 0) = true := by simpa using hk
-      have hks' : readInt k.repr = .ok k := hI k
-      simp only [mkEl, hk', if_true, List.append_nil] at hw
-      injection hw with hw; subst hw
-      simp only [mkEl] at he
-      simp [loadStringEncoding, loadStrSpec, strSizeEl, loadStrTail, mkStrEnc, findFirst, findAll, XmlNode.kids,
-        Step.matches, step, XmlNode.isElem, XmlNode.tag, XmlNode.ns, XmlNode.attr?, XmlNode.attr!, XmlNode.attrs,
-        XmlNode.text, optTruthy, strTruthy, listTruthy, hl', hk', hks', hsb, hsup, henc, hsupm, he, hrt, bind, Except.bind, pure,
-        Except.pure]
-def fixedTermStr (enc : String) (n : Int) (t : Bytes) : StrEnc :=
-  { encoding := enc, fixedLength := some n, dynRef := none, lookup := none, useCal := true, adjuster := none,
-    termChar := some t, leadingSize := none, byteOrder := none }
+/-- The byte order the loader passes to the constructor: the `byteOrder` attribute for a bare `UTF-16` / `UTF-32`. -/
+def boIn (enc : String) (bo : Option String) : Option String :=
+  if enc == "UTF-16" || enc == "UTF-32" then bo else none
 
-theorem string_fixed_term_roundtrip (hI : IntRoundTrip) (u : Option String) (enc : String)
-    (henc : enc ∈ singleByteEncodings) (n : Int) (hn : n ≠ 0) (t : Bytes) (ht : TermOK enc t) (x : XmlNode)
-    (hw : writeEncoding u (.str (fixedTermStr enc n t)) = .ok x) :
-    loadStringEncoding u x = .ok (.str (fixedTermStr enc n t)) := by
-  unfold fixedTermStr at hw ⊢
-  obtain ⟨hsb, hsup⟩ := singleByte_facts enc henc
-  have hsupm : enc ∈ SUPPORTED_STRING_ENCODINGS := by simpa using hsup
-  have hne16 : (enc == "UTF-16" || enc == "UTF-32") = false := by
-    simp only [singleByteEncodings, List.mem_cons, List.mem_nil_iff, or_false] at henc
-    rcases henc with rfl | rfl | rfl | rfl <;> decide
-  have hne16a : ¬ (enc = "UTF-16") ∧ ¬ (enc = "UTF-32") := by
-    simp only [Bool.or_eq_false_iff, beq_eq_false_iff_ne, ne_eq] at hne16; exact hne16
-  obtain ⟨htne, s, hdec, hlen⟩ := ht
-  have hte : t.isEmpty = false := by cases t <;> simp_all
-  have hn' : (n != 0) = true := by simpa using hn
-  have hsz' : readInt n.repr = .ok n := hI n
-  have hhex := hexToBytes_bytesToHex t
-  have hhne := bytesToHex_nonempty t htne
-  have hhne' : ¬ (bytesToHex t = "") := by
-    intro e; rw [e] at hhne; simp at hhne
-  simp [writeEncoding, optTruthy, hn', hte, hne16, pure, Except.pure, bind, Except.bind, mkEl] at hw
-  subst hw
-  simp [loadStringEncoding, loadStrSpec, strSizeEl, loadStrTail, mkStrEnc, findFirst, findAll, XmlNode.kids,
-    Step.matches, step, XmlNode.isElem, XmlNode.tag, XmlNode.ns, XmlNode.attr?, XmlNode.attrs, XmlNode.text,
-    readIntOpt, hsz', optTruthy, strTruthy, listTruthy, hn', henc, hsupm, hhex, hhne, hhne', hne16a.1, hne16a.2, hdec, hlen,
-    bind, Except.bind, pure, Except.pure]
+/-- The Python codec the termination character is checked with. -/
+def codecOf (enc : String) (bo : Option String) : String :=
+  if enc == "UTF-16" || enc == "UTF-32" then enc ++ (if bo == some "leastSignificantByteFirst" then "LE" else "BE") else enc
 
-def dynTermStr (enc : String) (r : String) (uc : Bool) (adj : Option LinAdj) (t : Bytes) : StrEnc :=
-  { encoding := enc, fixedLength := none, dynRef := some r, lookup := none, useCal := uc, adjuster := adj,
-    termChar := some t, leadingSize := none, byteOrder := none }
+/-- The termination character as the loader sees it (hex text) and as the object stores it. -/
+inductive TailOK (enc : String) (bo : Option String) : Option String → Option Int → Option Bytes → Prop
+  | plain (lead : Option Int) : TailOK enc bo none lead none
+  | term (t : Bytes) (h : TermOK (codecOf enc bo) t) : TailOK enc bo (some (bytesToHex t)) none (some t)
 
-theorem string_dyn_term_roundtrip (hI : IntRoundTrip) (u : Option String) (enc : String)
-    (henc : enc ∈ singleByteEncodings) (r : String) (hr : r ≠ "") (uc : Bool) (adj : Option LinAdj) (t : Bytes)
-    (ht : TermOK enc t) (x : XmlNode) (hw : writeEncoding u (.str (dynTermStr enc r uc adj t)) = .ok x) :
-    loadStringEncoding u x = .ok (.str (dynTermStr enc r uc adj t)) := by
-  unfold dynTermStr at hw ⊢
-  obtain ⟨hsb, hsup⟩ := singleByte_facts enc henc
-  have hsupm : enc ∈ SUPPORTED_STRING_ENCODINGS := by simpa using hsup
-  have hne16 : (enc == "UTF-16" || enc == "UTF-32") = false := by
-    simp only [singleByteEncodings, List.mem_cons, List.mem_nil_iff, or_false] at henc
-    rcases henc with rfl | rfl | rfl | rfl <;> decide
-  have hne16a : ¬ (enc = "UTF-16") ∧ ¬ (enc = "UTF-32") := by
-    simp only [Bool.or_eq_false_iff, beq_eq_false_iff_ne, ne_eq] at hne16; exact hne16
-  obtain ⟨htne, s, hdec, hlen⟩ := ht
-  have hte : t.isEmpty = false := by cases t <;> simp_all
-  have hr' : r.isEmpty = false := by
-    cases hh : r.isEmpty
+theorem mkStrEnc_ok (enc : String) (bo : Option String) (hc : CodecOK enc bo) (fixed : Option Int) (dyn : Option String)
+    (lookup : Option (List DiscreteLookup)) (useCal : Bool) (adj : Option LinAdj) (termHex : Option String)
+    (leading : Option Int) (term : Option Bytes)
+    (hspecs : (if strTruthy dyn then 1 else 0) + (if listTruthy lookup then 1 else 0) + (if optTruthy fixed then 1 else 0) = 1)
+    (hadj : adj.isSome = true → strTruthy dyn = true) (htail : TailOK enc bo termHex leading term) :
+    mkStrEnc enc (boIn enc bo) fixed dyn lookup useCal adj termHex leading =
+      .ok { encoding := enc, fixedLength := fixed, dynRef := dyn, lookup := lookup, useCal := useCal, adjuster := adj,
+            termChar := term, leadingSize := leading, byteOrder := bo } := by
+  have hspecs' : ((if strTruthy dyn then 1 else 0) + (if listTruthy lookup then 1 else 0) + (if optTruthy fixed then 1 else 0) != 1) = false := by
+    simp [hspecs]
+  have hadj' : (adj.isSome && !strTruthy dyn) = false := by
+    cases h : adj.isSome
     · rfl
-    · exact absurd (String.isEmpty_iff.mp hh) hr
-  have hhex := hexToBytes_bytesToHex t
-  have hhne := bytesToHex_nonempty t htne
-  cases adj with
-  | none =>
-    simp [writeEncoding, optTruthy, strTruthy, hr', hte, hne16, writeParamInstanceRef, pure, Except.pure, bind, Except.bind,
-      mkEl] at hw
-    subst hw
-    simp [loadStringEncoding, loadStrSpec, strSizeEl, loadStrTail, loadDynamicValue, loadLinearAdjuster, mkStrEnc,
-      findFirst, findAll, XmlNode.kids, Step.matches, step, XmlNode.isElem, XmlNode.tag, XmlNode.ns, XmlNode.attr?,
-      XmlNode.attr!, XmlNode.attrs, XmlNode.text, isTrueWord_pyBool, optTruthy, strTruthy, listTruthy, hr', henc, hsupm,
-      hhex, hhne, hne16a.1, hne16a.2, hdec, hlen, bind, Except.bind, pure, Except.pure]
-  | some a =>
-    have h1 : readInt a.slope.repr = .ok a.slope := hI a.slope
-    have h2 : readInt a.intercept.repr = .ok a.intercept := hI a.intercept
-    simp [writeEncoding, optTruthy, strTruthy, hr', hte, hne16, writeParamInstanceRef, writeLinAdj, showInt, pure,
-      Except.pure, bind, Except.bind, mkEl] at hw
-    subst hw
-    simp [loadStringEncoding, loadStrSpec, strSizeEl, loadStrTail, loadDynamicValue, loadLinearAdjuster, mkStrEnc,
-      findFirst, findAll, XmlNode.kids, Step.matches, step, XmlNode.isElem, XmlNode.tag, XmlNode.ns, XmlNode.attr?,
-      XmlNode.attr!, XmlNode.attrs, XmlNode.text, isTrueWord_pyBool, optTruthy, strTruthy, listTruthy, hr', henc, hsupm,
-      hhex, hhne, hne16a.1, hne16a.2, hdec, hlen, h1, h2, bind, Except.bind, pure, Except.pure]
+    · simp [hadj h]
+  cases htail with
+  | plain lead =>
+    cases hc with
+    | single enc henc =>
+      obtain ⟨hsb, hsup⟩ := singleByte_facts enc henc
+      have hne : (enc == "UTF-16" || enc == "UTF-32") = false := by
+        simp only [singleByteEncodings, List.mem_cons, List.mem_nil_iff, or_false] at henc
+        rcases henc with rfl | rfl | rfl | rfl <;> decide
+      have hsupm : enc ∈ SUPPORTED_STRING_ENCODINGS := by simpa using hsup
+      simp [mkStrEnc, boIn, hne, henc, hsupm, hspecs', hadj', bind, Except.bind, pure, Except.pure]
+    | bare16 b hb => rcases hb with rfl | rfl <;>
+        simp [mkStrEnc, boIn, SUPPORTED_STRING_ENCODINGS, singleByteEncodings, hspecs', hadj', bind, Except.bind, pure, Except.pure]
+    | bare32 b hb => rcases hb with rfl | rfl <;>
+        simp [mkStrEnc, boIn, SUPPORTED_STRING_ENCODINGS, singleByteEncodings, hspecs', hadj', bind, Except.bind, pure, Except.pure]
+    | le16 =>
+      have e : hasSub "UTF-16LE" "LE" = true := by decide +kernel
+      simp [mkStrEnc, boIn, SUPPORTED_STRING_ENCODINGS, singleByteEncodings, hspecs', hadj', e, bind, Except.bind, pure, Except.pure]
+    | be16 =>
+      have e1 : hasSub "UTF-16BE" "LE" = false := by decide +kernel
+      have e2 : hasSub "UTF-16BE" "BE" = true := by decide +kernel
+      simp [mkStrEnc, boIn, SUPPORTED_STRING_ENCODINGS, singleByteEncodings, hspecs', hadj', e1, e2, bind, Except.bind, pure, Except.pure]
+    | le32 =>
+      have e : hasSub "UTF-32LE" "LE" = true := by decide +kernel
+      simp [mkStrEnc, boIn, SUPPORTED_STRING_ENCODINGS, singleByteEncodings, hspecs', hadj', e, bind, Except.bind, pure, Except.pure]
+    | be32 =>
+      have e1 : hasSub "UTF-32BE" "LE" = false := by decide +kernel
+      have e2 : hasSub "UTF-32BE" "BE" = true := by decide +kernel
+      simp [mkStrEnc, boIn, SUPPORTED_STRING_ENCODINGS, singleByteEncodings, hspecs', hadj', e1, e2, bind, Except.bind, pure, Except.pure]
+  | term t ht =>
+    obtain ⟨htne, s, hdec, hlen⟩ := ht
+    have hhex := hexToBytes_bytesToHex t
+    have hhne := bytesToHex_nonempty t htne
+    have hhne' : ¬ (bytesToHex t = "") := by
+      intro e; rw [e] at hhne; simp at hhne
+    have hlen' : (s.length != 1) = false := by simp [hlen]
+    have hon : optTruthy (none : Option Int) = false := rfl
+    cases hc with
+    | single enc henc =>
+      obtain ⟨hsb, hsup⟩ := singleByte_facts enc henc
+      have hsupm : enc ∈ SUPPORTED_STRING_ENCODINGS := by simpa using hsup
+      have hne : (enc == "UTF-16" || enc == "UTF-32") = false := by
+        simp only [singleByteEncodings, List.mem_cons, List.mem_nil_iff, or_false] at henc
+        rcases henc with rfl | rfl | rfl | rfl <;> decide
+      have hne16a : ¬ (enc = "UTF-16") ∧ ¬ (enc = "UTF-32") := by
+        simp only [Bool.or_eq_false_iff, beq_eq_false_iff_ne, ne_eq] at hne; exact hne
+      simp only [codecOf, hne, Bool.false_eq_true, if_false] at hdec
+      simp [mkStrEnc, boIn, hne, henc, hsupm, hspecs', hadj', hhex, hhne, hhne', hdec, hlen, hne16a.1, hne16a.2, hon,
+        bind, Except.bind, pure, Except.pure]
+    | bare16 b hb =>
+      rcases hb with rfl | rfl <;>
+      · simp only [codecOf] at hdec
+        simp [mkStrEnc, boIn, SUPPORTED_STRING_ENCODINGS, singleByteEncodings, hspecs', hadj', hhex, hhne, hhne', hon,
+          bind, Except.bind, pure, Except.pure]
+        simp at hdec
+        simp [hdec, hlen]
+    | bare32 b hb =>
+      rcases hb with rfl | rfl <;>
+      · simp only [codecOf] at hdec
+        simp [mkStrEnc, boIn, SUPPORTED_STRING_ENCODINGS, singleByteEncodings, hspecs', hadj', hhex, hhne, hhne', hon,
+          bind, Except.bind, pure, Except.pure]
+        simp at hdec
+        simp [hdec, hlen]
+    | le16 =>
+      have e : hasSub "UTF-16LE" "LE" = true := by decide +kernel
+      simp only [codecOf] at hdec
+      simp at hdec
+      simp [mkStrEnc, boIn, SUPPORTED_STRING_ENCODINGS, singleByteEncodings, hspecs', hadj', e, hhex, hhne, hhne', hdec, hlen,
+        hon, bind, Except.bind, pure, Except.pure]
+    | be16 =>
+      have e1 : hasSub "UTF-16BE" "LE" = false := by decide +kernel
+      have e2 : hasSub "UTF-16BE" "BE" = true := by decide +kernel
+      simp only [codecOf] at hdec
+      simp at hdec
+      simp [mkStrEnc, boIn, SUPPORTED_STRING_ENCODINGS, singleByteEncodings, hspecs', hadj', e1, e2, hhex, hhne, hhne', hdec,
+        hlen, hon, bind, Except.bind, pure, Except.pure]
+    | le32 =>
+      have e : hasSub "UTF-32LE" "LE" = true := by decide +kernel
+      simp only [codecOf] at hdec
+      simp at hdec
+      simp [mkStrEnc, boIn, SUPPORTED_STRING_ENCODINGS, singleByteEncodings, hspecs', hadj', e, hhex, hhne, hhne', hdec, hlen,
+        hon, bind, Except.bind, pure, Except.pure]
+    | be32 =>
+      have e1 : hasSub "UTF-32BE" "LE" = false := by decide +kernel
+      have e2 : hasSub "UTF-32BE" "BE" = true := by decide +kernel
+      simp only [codecOf] at hdec
+      simp at hdec
+      simp [mkStrEnc, boIn, SUPPORTED_STRING_ENCODINGS, singleByteEncodings, hspecs', hadj', e1, e2, hhex, hhne, hhne', hdec,
+        hlen, hon, bind, Except.bind, pure, Except.pure]
 
-def lookupTermStr (enc : String) (l : List DiscreteLookup) (t : Bytes) : StrEnc :=
-  { encoding := enc, fixedLength := none, dynRef := none, lookup := some l, useCal := true, adjuster := none,
-    termChar := some t, leadingSize := none, byteOrder := none }
+/-- The children of the size element that follow the size specification. -/
+theorem tailKids_tags (u : Option String) (lead : Option Int) (term : Option Bytes) :
+    ∀ y ∈ tailKids u lead term, y.tag = "LeadingSize" ∨ y.tag = "TerminationChar" := by
+  intro y hy
+  unfold tailKids at hy
+  simp only [List.mem_append] at hy
+  rcases hy with hy | hy
+  · split at hy
+    · simp only [List.mem_singleton] at hy; subst hy; exact Or.inl rfl
+    · simp at hy
+  · cases term with
+    | none => simp at hy
+    | some t =>
+      simp only at hy
+      split at hy
+      · simp at hy
+      · simp only [List.mem_singleton] at hy; subst hy; exact Or.inr rfl
 
-theorem string_lookup_term_roundtrip (hV : FValRoundTrip) (u : Option String) (enc : String)
-    (henc : enc ∈ singleByteEncodings) (l : List DiscreteLookup) (hl : l ≠ [])
+theorem filter_head_only (u : Option String) (T : String) (a : XmlNode) (tail : List XmlNode)
+    (ha : (step T).matches u a = true) (ht : ∀ y ∈ tail, (step T).matches u y = false) :
+    (a :: tail).filter ((step T).matches u) = [a] := by
+  have : tail.filter ((step T).matches u) = [] := by
+    rw [List.filter_eq_nil_iff]; intro y hy; simp [ht y hy]
+  simp [List.filter_cons, ha, this]
+
+theorem tail_no_match (u : Option String) (lead : Option Int) (term : Option Bytes) (T : String)
+    (h1 : (T == "LeadingSize") = false) (h2 : (T == "TerminationChar") = false) (h3 : (T == "*") = false) :
+    ∀ y ∈ tailKids u lead term, (step T).matches u y = false := by
+  intro y hy
+  rcases tailKids_tags u lead term y hy with h | h
+  · have : (y.tag == T) = false := by
+      rw [h]; cases hh : ("LeadingSize" == T)
+      · rfl
+      · rw [← beq_iff_eq.mp hh] at h1; simp at h1
+    simp [Step.matches, step, this, h3]
+  · have : (y.tag == T) = false := by
+      rw [h]; cases hh : ("TerminationChar" == T)
+      · rfl
+      · rw [← beq_iff_eq.mp hh] at h2; simp at h2
+    simp [Step.matches, step, this, h3]
+
+/-- Reading the tail (termination character as hex text, leading size) of a written size element. -/
+theorem loadStrTail_written (hI : IntRoundTrip) (u : Option String) (T : String) (spec : XmlNode)
+    (hs1 : (step "TerminationChar").matches u spec = false) (hs2 : (step "LeadingSize").matches u spec = false)
+    (lead : Option Int) (term : Option Bytes)
+    (h : (term = none ∧ lead ≠ some 0) ∨ (∃ t, term = some t ∧ t ≠ [] ∧ lead = none)) :
+    loadStrTail u (.elem u T [] none (spec :: tailKids u lead term)) =
+      .ok (term.map bytesToHex, lead) := by
+  have hs1' : Step.matches u { tag := "TerminationChar" } spec = false := hs1
+  have hs2' : Step.matches u { tag := "LeadingSize" } spec = false := hs2
+  rcases h with ⟨rfl, hl⟩ | ⟨t, rfl, htne, rfl⟩
+  · rcases leading_cases lead hl with ⟨rfl, hlt⟩ | ⟨k, rfl, hk, hlt⟩
+    · simp [loadStrTail, tailKids, hlt, findFirst, findAll, XmlNode.kids, step, List.filter_cons, hs1', hs2']
+    · have hks' : readInt k.repr = .ok k := hI k
+      simp [loadStrTail, tailKids, hlt, findFirst, findAll, XmlNode.kids, step, List.filter_cons, hs1', hs2', mkEl]
+      simp [Step.matches, XmlNode.isElem, XmlNode.tag, XmlNode.ns, XmlNode.attr!, XmlNode.attr?, XmlNode.attrs, hks']
+  · have hte : t.isEmpty = false := by cases t <;> simp_all
+    have hon : optTruthy (none : Option Int) = false := rfl
+    simp [loadStrTail, tailKids, hon, hte, findFirst, findAll, XmlNode.kids, step, List.filter_cons, hs1', hs2', mkEl]
+    simp [Step.matches, XmlNode.isElem, XmlNode.tag, XmlNode.ns, XmlNode.text]
+
+
+theorem spec_fixed (hI : IntRoundTrip) (u : Option String) (attrs : List (String × String)) (n : Int)
+    (lead : Option Int) (term : Option Bytes) :
+    let se := XmlNode.elem u "SizeInBits" [] none
+      (mkEl u "Fixed" [] [mkEl u "FixedValue" [] [] (some (toString n))] :: tailKids u lead term)
+    loadStrSpec u (mkEl u "StringDataEncoding" attrs [se]) = .ok (some n, none, true, none, none) ∧
+    strSizeEl u (mkEl u "StringDataEncoding" attrs [se]) = some se := by
+  intro se
+  have hf := filter_head_only u "Fixed" (mkEl u "Fixed" [] [mkEl u "FixedValue" [] [] (some (toString n))])
+    (tailKids u lead term) (by simp [Step.matches, step, mkEl, XmlNode.isElem, XmlNode.tag, XmlNode.ns])
+    (tail_no_match u lead term "Fixed" (by decide) (by decide) (by decide))
+  have hsz : readInt n.repr = .ok n := hI n
+  have h1 : findFirst u [step "SizeInBits"] (mkEl u "StringDataEncoding" attrs [se]) = some se := by
+    simp [se, findFirst, findAll, mkEl, XmlNode.kids, Step.matches, step, XmlNode.isElem, XmlNode.tag, XmlNode.ns]
+  have h2 : findFirst u [step "Fixed", step "FixedValue"] se = some (mkEl u "FixedValue" [] [] (some (toString n))) := by
+    simp only [se, findFirst, findAll, XmlNode.kids, hf]
+    simp [mkEl, XmlNode.kids, Step.matches, step, XmlNode.isElem, XmlNode.tag, XmlNode.ns]
+  refine ⟨?_, by simp only [strSizeEl, h1]⟩
+  simp only [loadStrSpec, h1, h2]
+  simp [mkEl, XmlNode.text, readIntOpt, hsz]
+
+theorem spec_dyn (hI : IntRoundTrip) (u : Option String) (attrs : List (String × String)) (r : String) (uc : Bool)
+    (adj : Option LinAdj) (lead : Option Int) (term : Option Bytes) :
+    let dv := mkEl u "DynamicValue" [] ([writeParamInstanceRef u r uc] ++
+      adjKids u adj)
+    let se := XmlNode.elem u "Variable" [] none (dv :: tailKids u lead term)
+    loadStrSpec u (mkEl u "StringDataEncoding" attrs [se]) = .ok (none, some r, uc, adj, none) ∧
+    strSizeEl u (mkEl u "StringDataEncoding" attrs [se]) = some se := by
+  intro dv se
+  have hf := filter_head_only u "DynamicValue" dv (tailKids u lead term)
+    (by simp [dv, Step.matches, step, mkEl, XmlNode.isElem, XmlNode.tag, XmlNode.ns])
+    (tail_no_match u lead term "DynamicValue" (by decide) (by decide) (by decide))
+  have h0 : findFirst u [step "SizeInBits"] (mkEl u "StringDataEncoding" attrs [se]) = none := by
+    simp [se, findFirst, findAll, mkEl, XmlNode.kids, Step.matches, step, XmlNode.isElem, XmlNode.tag, XmlNode.ns]
+  have h1 : findFirst u [step "Variable"] (mkEl u "StringDataEncoding" attrs [se]) = some se := by
+    simp [se, findFirst, findAll, mkEl, XmlNode.kids, Step.matches, step, XmlNode.isElem, XmlNode.tag, XmlNode.ns]
+  have h2 : findFirst u [step "DynamicValue"] se = some dv := by
+    simp only [se, findFirst, findAll, XmlNode.kids, hf]
+    simp
+  have h3 : loadDynamicValue u dv = .ok (r, uc, adj) := by
+    cases adj with
+    | none =>
+      simp [dv, adjKids, loadDynamicValue, loadLinearAdjuster, writeParamInstanceRef, findFirst, findAll, mkEl, XmlNode.kids,
+        Step.matches, step, XmlNode.isElem, XmlNode.tag, XmlNode.ns, XmlNode.attr!, XmlNode.attr?, XmlNode.attrs,
+        isTrueWord_pyBool, bind, Except.bind, pure, Except.pure]
+    | some a =>
+      have g1 : readInt a.slope.repr = .ok a.slope := hI a.slope
+      have g2 : readInt a.intercept.repr = .ok a.intercept := hI a.intercept
+      simp [dv, adjKids, loadDynamicValue, loadLinearAdjuster, writeParamInstanceRef, writeLinAdj, showInt, findFirst, findAll, mkEl,
+        XmlNode.kids, Step.matches, step, XmlNode.isElem, XmlNode.tag, XmlNode.ns, XmlNode.attr!, XmlNode.attr?,
+        XmlNode.attrs, isTrueWord_pyBool, g1, g2, bind, Except.bind, pure, Except.pure]
+  refine ⟨?_, by simp only [strSizeEl, h0, h1]⟩
+  simp only [loadStrSpec, h0, h1, h2, h3]
+
+theorem spec_lookup (hV : FValRoundTrip) (u : Option String) (attrs : List (String × String)) (l : List DiscreteLookup)
     (hwf : ∀ d ∈ l, (∃ q, d.value = .flt (.fin q)) ∧ d.criteria ≠ [] ∧ ∀ c ∈ d.criteria, (lookupOp c.op).isSome = true)
-    (t : Bytes) (ht : TermOK enc t) (x : XmlNode)
-    (hw : writeEncoding u (.str (lookupTermStr enc l t)) = .ok x) :
-    loadStringEncoding u x = .ok (.str (lookupTermStr enc l t)) := by
-  unfold lookupTermStr at hw ⊢
-  obtain ⟨hsb, hsup⟩ := singleByte_facts enc henc
-  have hsupm : enc ∈ SUPPORTED_STRING_ENCODINGS := by simpa using hsup
-  have hne16 : (enc == "UTF-16" || enc == "UTF-32") = false := by
-    simp only [singleByteEncodings, List.mem_cons, List.mem_nil_iff, or_false] at henc
-    rcases henc with rfl | rfl | rfl | rfl <;> decide
-  have hne16a : ¬ (enc = "UTF-16") ∧ ¬ (enc = "UTF-32") := by
-    simp only [Bool.or_eq_false_iff, beq_eq_false_iff_ne, ne_eq] at hne16; exact hne16
-  obtain ⟨htne, s, hdec, hlen⟩ := ht
-  have hte : t.isEmpty = false := by cases t <;> simp_all
-  have hhex := hexToBytes_bytesToHex t
-  have hhne := bytesToHex_nonempty t htne
-  have hl' : l.isEmpty = false := by cases l <;> simp_all
-  simp only [writeEncoding, optTruthy, strTruthy, listTruthy, hl', hte, Bool.not_false, Bool.false_eq_true, if_true, if_false,
-    bind, Except.bind, pure, Except.pure, Option.getD, hne16, List.append_nil, List.nil_append] at hw
-  cases hm : l.mapM (writeDiscreteLookup u) with
-  | error err => simp [hm] at hw
-  | ok xs =>
-    simp only [hm] at hw
-    have hel := mapM_all (writeDiscreteLookup u) (fun b => b.isElem = true) l
-      (fun d _ b hb => writeDiscreteLookup_isElem u d b hb) xs hm
-    have hrt := mapM_roundtrip (writeDiscreteLookup u) (loadDiscreteLookup u) l
-      (fun d hd b hb => by
-        obtain ⟨⟨q, hq⟩, hne, hop⟩ := hwf d hd
-        exact discrete_lookup_roundtrip hV u d q hq hne hop b hb) xs hm
-    have he : (XmlNode.elem u "DiscreteLookupList" [] none xs).elems = xs := by
-      simp only [XmlNode.elems, XmlNode.kids]
-      rw [List.filter_eq_self]; exact hel
-    simp only [mkEl] at hw
-    injection hw with hw; subst hw
-    simp [loadStringEncoding, loadStrSpec, strSizeEl, loadStrTail, mkStrEnc, findFirst, findAll, XmlNode.kids,
-      Step.matches, step, XmlNode.isElem, XmlNode.tag, XmlNode.ns, XmlNode.attr?, XmlNode.attrs, XmlNode.text,
-      optTruthy, strTruthy, listTruthy, hl', henc, hsupm, he, hrt, hhex, hhne, hne16a.1, hne16a.2, hdec, hlen, bind,
-      Except.bind, pure, Except.pure]
+    (xs : List XmlNode) (hm : l.mapM (writeDiscreteLookup u) = .ok xs) (lead : Option Int) (term : Option Bytes) :
+    let se := XmlNode.elem u "Variable" [] none (mkEl u "DiscreteLookupList" [] xs :: tailKids u lead term)
+    loadStrSpec u (mkEl u "StringDataEncoding" attrs [se]) = .ok (none, none, true, none, some l) ∧
+    strSizeEl u (mkEl u "StringDataEncoding" attrs [se]) = some se := by
+  intro se
+  have hfd := tail_no_match u lead term "DynamicValue" (by decide) (by decide) (by decide)
+  have hf := filter_head_only u "DiscreteLookupList" (mkEl u "DiscreteLookupList" [] xs) (tailKids u lead term)
+    (by simp [Step.matches, step, mkEl, XmlNode.isElem, XmlNode.tag, XmlNode.ns])
+    (tail_no_match u lead term "DiscreteLookupList" (by decide) (by decide) (by decide))
+  have hfd' : (mkEl u "DiscreteLookupList" [] xs :: tailKids u lead term).filter ((step "DynamicValue").matches u) = [] := by
+    rw [List.filter_eq_nil_iff]
+    intro y hy
+    simp only [List.mem_cons] at hy
+    rcases hy with rfl | hy
+    · simp [Step.matches, step, mkEl, XmlNode.tag]
+    · simp [hfd y hy]
+  have hel := mapM_all (writeDiscreteLookup u) (fun b => b.isElem = true) l
+    (fun d _ b hb => writeDiscreteLookup_isElem u d b hb) xs hm
+  have hrt := mapM_roundtrip (writeDiscreteLookup u) (loadDiscreteLookup u) l
+    (fun d hd b hb => by
+      obtain ⟨⟨q, hq⟩, hne, hop⟩ := hwf d hd
+      exact discrete_lookup_roundtrip hV u d q hq hne hop b hb) xs hm
+  have he : (mkEl u "DiscreteLookupList" [] xs).elems = xs := by
+    simp only [mkEl, XmlNode.elems, XmlNode.kids]
+    rw [List.filter_eq_self]; exact hel
+  have h0 : findFirst u [step "SizeInBits"] (mkEl u "StringDataEncoding" attrs [se]) = none := by
+    simp [se, findFirst, findAll, mkEl, XmlNode.kids, Step.matches, step, XmlNode.isElem, XmlNode.tag, XmlNode.ns]
+  have h1 : findFirst u [step "Variable"] (mkEl u "StringDataEncoding" attrs [se]) = some se := by
+    simp [se, findFirst, findAll, mkEl, XmlNode.kids, Step.matches, step, XmlNode.isElem, XmlNode.tag, XmlNode.ns]
+  have h2 : findFirst u [step "DynamicValue"] se = none := by
+    simp only [se, findFirst, findAll, XmlNode.kids, hfd']
+    simp
+  have h3 : findFirst u [step "DiscreteLookupList"] se = some (mkEl u "DiscreteLookupList" [] xs) := by
+    simp only [se, findFirst, findAll, XmlNode.kids, hf]
+    simp
+  refine ⟨?_, by simp only [strSizeEl, h0, h1]⟩
+  simp only [loadStrSpec, h0, h1, h2, h3, he, hrt]
 
-/-- A string encoding of that regime — codec, fixed, referenced (with its selector and adjustment) or looked-up size,
-    leading size — survives write → load. -/
+
+/-- The attributes the writer gives a `StringDataEncoding` element. -/
+def strAttrs (enc : String) (bo : Option String) : List (String × String) :=
+  [("encoding", enc)] ++ (if enc == "UTF-16" || enc == "UTF-32" then [("byteOrder", bo.getD "None")] else [])
+
+theorem readStrByteOrder_written (u : Option String) (enc : String) (bo : Option String) (hc : CodecOK enc bo)
+    (kids : List XmlNode) :
+    ((mkEl u "StringDataEncoding" (strAttrs enc bo) kids).attr? "encoding").getD "UTF-8" = enc ∧
+    readStrByteOrder (mkEl u "StringDataEncoding" (strAttrs enc bo) kids) enc = .ok (boIn enc bo) := by
+  cases hc with
+  | single enc henc =>
+    have hne : (enc == "UTF-16" || enc == "UTF-32") = false := by
+      simp only [singleByteEncodings, List.mem_cons, List.mem_nil_iff, or_false] at henc
+      rcases henc with rfl | rfl | rfl | rfl <;> decide
+    simp [strAttrs, hne, mkEl, XmlNode.attr?, XmlNode.attrs, readStrByteOrder, boIn, henc, pure, Except.pure]
+  | bare16 b hb =>
+    have e1 : ("UTF-16".endsWith "BE") = false := by decide +kernel
+    have e2 : ("UTF-16".endsWith "LE") = false := by decide +kernel
+    simp [strAttrs, mkEl, XmlNode.attr?, XmlNode.attrs, readStrByteOrder, boIn, singleByteEncodings, e1, e2, pure, Except.pure]
+  | bare32 b hb =>
+    have e1 : ("UTF-32".endsWith "BE") = false := by decide +kernel
+    have e2 : ("UTF-32".endsWith "LE") = false := by decide +kernel
+    simp [strAttrs, mkEl, XmlNode.attr?, XmlNode.attrs, readStrByteOrder, boIn, singleByteEncodings, e1, e2, pure, Except.pure]
+  | le16 =>
+    have e2 : ("UTF-16LE".endsWith "LE") = true := by decide +kernel
+    simp [strAttrs, mkEl, XmlNode.attr?, XmlNode.attrs, readStrByteOrder, boIn, singleByteEncodings, e2, pure, Except.pure]
+  | be16 =>
+    have e1 : ("UTF-16BE".endsWith "BE") = true := by decide +kernel
+    simp [strAttrs, mkEl, XmlNode.attr?, XmlNode.attrs, readStrByteOrder, boIn, singleByteEncodings, e1, pure, Except.pure]
+  | le32 =>
+    have e2 : ("UTF-32LE".endsWith "LE") = true := by decide +kernel
+    simp [strAttrs, mkEl, XmlNode.attr?, XmlNode.attrs, readStrByteOrder, boIn, singleByteEncodings, e2, pure, Except.pure]
+  | be32 =>
+    have e1 : ("UTF-32BE".endsWith "BE") = true := by decide +kernel
+    simp [strAttrs, mkEl, XmlNode.attr?, XmlNode.attrs, readStrByteOrder, boIn, singleByteEncodings, e1, pure, Except.pure]
+
+
+/-- String encodings in the regime of the round trip: any of the ten codecs with the byte order the object records for
+    it; exactly one size form (fixed and non-zero, taken from a parameter with its selector and adjustment, or looked up
+    from criteria); and either a leading size that is absent or non-zero, or a termination character (one character of
+    the codec). -/
+structure StrWF (e : StrEnc) : Prop where
+  codec : CodecOK e.encoding e.byteOrder
+  spec : (∃ n, n ≠ 0 ∧ e.fixedLength = some n ∧ e.dynRef = none ∧ e.lookup = none ∧ e.useCal = true ∧ e.adjuster = none) ∨
+         (∃ r, r ≠ "" ∧ e.fixedLength = none ∧ e.dynRef = some r ∧ e.lookup = none) ∨
+         (∃ l, l ≠ [] ∧ (∀ d ∈ l, (∃ q, d.value = .flt (.fin q)) ∧ d.criteria ≠ [] ∧
+                          ∀ c ∈ d.criteria, (lookupOp c.op).isSome = true) ∧
+               e.fixedLength = none ∧ e.dynRef = none ∧ e.lookup = some l ∧ e.useCal = true ∧ e.adjuster = none)
+  tail : (e.termChar = none ∧ e.leadingSize ≠ some 0) ∨
+         (∃ t, e.termChar = some t ∧ TermOK (codecOf e.encoding e.byteOrder) t ∧ e.leadingSize = none)
+
+theorem tail_facts (enc : String) (bo : Option String) (term : Option Bytes) (lead : Option Int)
+    (h : (term = none ∧ lead ≠ some 0) ∨ (∃ t, term = some t ∧ TermOK (codecOf enc bo) t ∧ lead = none)) :
+    TailOK enc bo (term.map bytesToHex) lead term ∧
+    ((term = none ∧ lead ≠ some 0) ∨ (∃ t, term = some t ∧ t ≠ [] ∧ lead = none)) := by
+  rcases h with ⟨rfl, hl⟩ | ⟨t, rfl, ht, rfl⟩
+  · exact ⟨TailOK.plain lead, Or.inl ⟨rfl, hl⟩⟩
+  · exact ⟨TailOK.term t ht, Or.inr ⟨t, rfl, ht.1, rfl⟩⟩
+
+/-- **A string encoding written to XML and loaded back is the same string encoding** — codec and byte order, size
+    specification, leading size or termination character. -/
 theorem string_encoding_roundtrip (hI : IntRoundTrip) (hV : FValRoundTrip) (u : Option String) (e : StrEnc) (hwf : StrWF e)
     (x : XmlNode) (hw : writeEncoding u (.str e) = .ok x) : loadStringEncoding u x = .ok (.str e) := by
-  cases hwf with
-  | lookup enc henc l hl hwf lead hlead => exact string_lookup_roundtrip hI hV u enc henc l hl hwf lead hlead x hw
-  | fixedTerm enc henc n hn t ht => exact string_fixed_term_roundtrip hI u enc henc n hn t ht x hw
-  | dynamicTerm enc henc r hr uc adj t ht => exact string_dyn_term_roundtrip hI u enc henc r hr uc adj t ht x hw
-  | lookupTerm enc henc l hl hwf t ht => exact string_lookup_term_roundtrip hV u enc henc l hl hwf t ht x hw
-  | fixed enc henc n hn lead hl =>
+  obtain ⟨enc, fixed, dyn, lookup, useCal, adj, term, lead, bo⟩ := e
+  obtain ⟨hc, hspec, htail⟩ := hwf
+  simp only at hc hspec htail
+  obtain ⟨htl, htl'⟩ := tail_facts enc bo term lead htail
+  rcases hspec with ⟨n, hn, rfl, rfl, rfl, rfl, rfl⟩ | ⟨r, hr, rfl, rfl, rfl⟩ | ⟨l, hl, hlwf, rfl, rfl, rfl, rfl, rfl⟩
+  · -- fixed size
     have hn' : (n != 0) = true := by simpa using hn
-    have hsz : readInt (toString n) = .ok n := hI n
-    have hsz' : readInt n.repr = .ok n := hsz
-    rcases leading_cases lead hl with ⟨rfl, hlt⟩ | ⟨k, rfl, hk, hlt⟩
-    · simp only [singleByteEncodings, List.mem_cons, List.mem_nil_iff, or_false] at henc
-      rcases henc with rfl | rfl | rfl | rfl <;>
-      · simp [writeEncoding, optTruthy, hn', pure, Except.pure, bind, Except.bind, mkEl] at hw
-        subst hw
-        simp [loadStringEncoding, loadStrSpec, strSizeEl, loadStrTail, mkStrEnc, findFirst, findAll, XmlNode.kids,
-          Step.matches, step, XmlNode.isElem, XmlNode.tag, XmlNode.ns, XmlNode.attr?, XmlNode.attrs, XmlNode.text,
-          readIntOpt, hsz', optTruthy, strTruthy, listTruthy, hn', singleByteEncodings, SUPPORTED_STRING_ENCODINGS,
-          bind, Except.bind, pure, Except.pure]
-    · have hk' : (k != 0) = true := by simpa using hk
-      have hks : readInt (toString k) = .ok k := hI k
-      have hks' : readInt k.repr = .ok k := hks
-      simp only [singleByteEncodings, List.mem_cons, List.mem_nil_iff, or_false] at henc
-      rcases henc with rfl | rfl | rfl | rfl <;>
-      · simp [writeEncoding, optTruthy, hn', hk', pure, Except.pure, bind, Except.bind, mkEl] at hw
-        subst hw
-        simp [loadStringEncoding, loadStrSpec, strSizeEl, loadStrTail, mkStrEnc, findFirst, findAll, XmlNode.kids,
-          Step.matches, step, XmlNode.isElem, XmlNode.tag, XmlNode.ns, XmlNode.attr?, XmlNode.attr!, XmlNode.attrs,
-          XmlNode.text, readIntOpt, hsz', hks', optTruthy, strTruthy, listTruthy, hn', hk', singleByteEncodings,
-          SUPPORTED_STRING_ENCODINGS, bind, Except.bind, pure, Except.pure]
-  | dynamic enc henc r hr uc adj lead hl =>
-    have hr' : r.isEmpty = false := by
-      cases hh : r.isEmpty
-      · rfl
-      · exact absurd (String.isEmpty_iff.mp hh) hr
-    have hadj : ∀ a : LinAdj, readInt a.slope.repr = .ok a.slope ∧ readInt a.intercept.repr = .ok a.intercept :=
-      fun a => ⟨hI a.slope, hI a.intercept⟩
-    rcases leading_cases lead hl with ⟨rfl, hlt⟩ | ⟨k, rfl, hk, hlt⟩
-    · simp only [singleByteEncodings, List.mem_cons, List.mem_nil_iff, or_false] at henc
-      cases adj with
-      | none =>
-        rcases henc with rfl | rfl | rfl | rfl <;>
-        · simp [writeEncoding, optTruthy, strTruthy, hr', writeParamInstanceRef, pure, Except.pure, bind, Except.bind,
-            mkEl] at hw
-          subst hw
-          simp [loadStringEncoding, loadStrSpec, strSizeEl, loadStrTail, loadDynamicValue, loadLinearAdjuster, mkStrEnc,
-            findFirst, findAll, XmlNode.kids, Step.matches, step, XmlNode.isElem, XmlNode.tag, XmlNode.ns, XmlNode.attr?,
-            XmlNode.attr!, XmlNode.attrs, XmlNode.text, isTrueWord_pyBool, optTruthy, strTruthy, listTruthy, hr',
-            singleByteEncodings, SUPPORTED_STRING_ENCODINGS, bind, Except.bind, pure, Except.pure]
-      | some a =>
-        obtain ⟨h1, h2⟩ := hadj a
-        rcases henc with rfl | rfl | rfl | rfl <;>
-        · simp [writeEncoding, optTruthy, strTruthy, hr', writeParamInstanceRef, writeLinAdj, showInt, pure, Except.pure,
-            bind, Except.bind, mkEl] at hw
-          subst hw
-          simp [loadStringEncoding, loadStrSpec, strSizeEl, loadStrTail, loadDynamicValue, loadLinearAdjuster, mkStrEnc,
-            findFirst, findAll, XmlNode.kids, Step.matches, step, XmlNode.isElem, XmlNode.tag, XmlNode.ns, XmlNode.attr?,
-            XmlNode.attr!, XmlNode.attrs, XmlNode.text, isTrueWord_pyBool, optTruthy, strTruthy, listTruthy, hr', h1, h2,
-            singleByteEncodings, SUPPORTED_STRING_ENCODINGS, bind, Except.bind, pure, Except.pure]
-    · have hk' : (k != 0) = true := by simpa using hk
-      have hks' : readInt k.repr = .ok k := hI k
-      simp only [singleByteEncodings, List.mem_cons, List.mem_nil_iff, or_false] at henc
-      cases adj with
-      | none =>
-        rcases henc with rfl | rfl | rfl | rfl <;>
-        · simp [writeEncoding, optTruthy, strTruthy, hr', hk', writeParamInstanceRef, pure, Except.pure, bind, Except.bind,
-            mkEl] at hw
-          subst hw
-          simp [loadStringEncoding, loadStrSpec, strSizeEl, loadStrTail, loadDynamicValue, loadLinearAdjuster, mkStrEnc,
-            findFirst, findAll, XmlNode.kids, Step.matches, step, XmlNode.isElem, XmlNode.tag, XmlNode.ns, XmlNode.attr?,
-            XmlNode.attr!, XmlNode.attrs, XmlNode.text, isTrueWord_pyBool, optTruthy, strTruthy, listTruthy, hr', hk',
-            hks', singleByteEncodings, SUPPORTED_STRING_ENCODINGS, bind, Except.bind, pure, Except.pure]
-      | some a =>
-        obtain ⟨h1, h2⟩ := hadj a
-        rcases henc with rfl | rfl | rfl | rfl <;>
-        · simp [writeEncoding, optTruthy, strTruthy, hr', hk', writeParamInstanceRef, writeLinAdj, showInt, pure,
-            Except.pure, bind, Except.bind, mkEl] at hw
-          subst hw
-          simp [loadStringEncoding, loadStrSpec, strSizeEl, loadStrTail, loadDynamicValue, loadLinearAdjuster, mkStrEnc,
-            findFirst, findAll, XmlNode.kids, Step.matches, step, XmlNode.isElem, XmlNode.tag, XmlNode.ns, XmlNode.attr?,
-            XmlNode.attr!, XmlNode.attrs, XmlNode.text, isTrueWord_pyBool, optTruthy, strTruthy, listTruthy, hr', hk',
-            hks', h1, h2, singleByteEncodings, SUPPORTED_STRING_ENCODINGS, bind, Except.bind, pure, Except.pure]
+    simp only [writeEncoding, optTruthy, hn', if_true, bind, Except.bind, pure, Except.pure, Option.getD_some] at hw
+    simp only [mkEl, List.cons_append, List.nil_append] at hw
+    injection hw with hw; subst hw
+    obtain ⟨hS1, hS2⟩ := spec_fixed hI u (strAttrs enc bo) n lead term
+    obtain ⟨hB1, hB2⟩ := readStrByteOrder_written u enc bo hc
+      [XmlNode.elem u "SizeInBits" [] none (mkEl u "Fixed" [] [mkEl u "FixedValue" [] [] (some (toString n))] :: tailKids u lead term)]
+    have hT := loadStrTail_written hI u "SizeInBits" (mkEl u "Fixed" [] [mkEl u "FixedValue" [] [] (some (toString n))])
+      (by simp [Step.matches, step, mkEl, XmlNode.tag]) (by simp [Step.matches, step, mkEl, XmlNode.tag]) lead term htl'
+    have hM := mkStrEnc_ok enc bo hc (some n) none none true none (term.map bytesToHex) lead term
+      (by simp [strTruthy, listTruthy, optTruthy, hn']) (by intro h; cases h) htl
+    simp only [mkEl, strAttrs, List.cons_append, List.nil_append] at hS1 hS2 hB1 hB2 hT
+    simp only [loadStringEncoding, hB1, hB2, hS1, hS2, hT, hM, bind, Except.bind, pure, Except.pure]
+  · -- size taken from a parameter
+    have hr' : strTruthy (some r) = true := by simpa [strTruthy] using hr
+    simp only [writeEncoding, optTruthy, hr', if_true, bind, Except.bind, pure, Except.pure, Option.getD_some,
+      Bool.false_eq_true, if_false] at hw
+    simp only [mkEl, List.cons_append, List.nil_append] at hw
+    injection hw with hw; subst hw
+    obtain ⟨hS1, hS2⟩ := spec_dyn hI u (strAttrs enc bo) r useCal adj lead term
+    obtain ⟨hB1, hB2⟩ := readStrByteOrder_written u enc bo hc
+      [XmlNode.elem u "Variable" [] none (mkEl u "DynamicValue" [] ([writeParamInstanceRef u r useCal] ++
+        adjKids u adj) :: tailKids u lead term)]
+    have hT := loadStrTail_written hI u "Variable" (mkEl u "DynamicValue" [] ([writeParamInstanceRef u r useCal] ++
+        adjKids u adj))
+      (by simp [Step.matches, step, mkEl, XmlNode.tag]) (by simp [Step.matches, step, mkEl, XmlNode.tag]) lead term htl'
+    have hM := mkStrEnc_ok enc bo hc none (some r) none useCal adj (term.map bytesToHex) lead term
+      (by simp [hr', listTruthy, optTruthy]) (by intro _; exact hr') htl
+    simp only [mkEl, strAttrs, List.cons_append, List.nil_append] at hS1 hS2 hB1 hB2 hT
+    simp only [loadStringEncoding, hB1, hB2, hS1, hS2, hT, hM, bind, Except.bind, pure, Except.pure]
+  · -- size looked up from criteria
+    have hl' : listTruthy (some l) = true := by cases l with | nil => exact absurd rfl hl | cons a t => rfl
+    simp only [writeEncoding, optTruthy, strTruthy, hl', if_true, bind, Except.bind, pure, Except.pure, Option.getD_some,
+      Bool.false_eq_true, if_false] at hw
+    cases hm : l.mapM (writeDiscreteLookup u) with
+    | error err => rw [hm] at hw; cases hw
+    | ok xs =>
+      rw [hm] at hw
+      simp only [mkEl, List.cons_append, List.nil_append] at hw
+      injection hw with hw; subst hw
+      obtain ⟨hS1, hS2⟩ := spec_lookup hV u (strAttrs enc bo) l hlwf xs hm lead term
+      obtain ⟨hB1, hB2⟩ := readStrByteOrder_written u enc bo hc
+        [XmlNode.elem u "Variable" [] none (mkEl u "DiscreteLookupList" [] xs :: tailKids u lead term)]
+      have hT := loadStrTail_written hI u "Variable" (mkEl u "DiscreteLookupList" [] xs)
+        (by simp [Step.matches, step, mkEl, XmlNode.tag]) (by simp [Step.matches, step, mkEl, XmlNode.tag]) lead term htl'
+      have hM := mkStrEnc_ok enc bo hc none none (some l) true none (term.map bytesToHex) lead term
+        (by simp [hl', strTruthy, optTruthy]) (by intro h; cases h) htl
+      simp only [mkEl, strAttrs, List.cons_append, List.nil_append] at hS1 hS2 hB1 hB2 hT
+      simp only [loadStringEncoding, hB1, hB2, hS1, hS2, hT, hM, bind, Except.bind, pure, Except.pure]
+
+
+/-- The regime is inhabited by multi-byte, terminated encodings: a bare `UTF-16` with a byte-order attribute, sized by a
+    parameter with an adjustment, ended by a two-byte NUL. -/
+example : StrWF { encoding := "UTF-16", fixedLength := none, dynRef := some "LEN", lookup := none, useCal := false,
+                  adjuster := some { slope := 8, intercept := -16 }, termChar := some [0, 0], leadingSize := none,
+                  byteOrder := some "mostSignificantByteFirst" } :=
+  ⟨CodecOK.bare16 _ (Or.inr rfl), Or.inr (Or.inl ⟨"LEN", by decide, rfl, rfl, rfl⟩),
+   Or.inr ⟨[0, 0], rfl, ⟨by decide, ⟨String.ofList [Char.ofNat 0], by decide +kernel, by decide⟩⟩, rfl⟩⟩
+
+/-- … and by a fixed-size `UTF-32LE` string with a leading size. -/
+example : StrWF { encoding := "UTF-32LE", fixedLength := some 64, dynRef := none, lookup := none, useCal := true,
+                  adjuster := none, termChar := none, leadingSize := some 16,
+                  byteOrder := some "leastSignificantByteFirst" } :=
+  ⟨CodecOK.le32, Or.inl ⟨64, by decide, rfl, rfl, rfl, rfl, rfl⟩, Or.inl ⟨rfl, by decide⟩⟩
 
 end Spp.C09
